@@ -17,7 +17,8 @@ RULE = ('real files in a scratch directory: random integer tables (1..200 rows, 
         'rendered and the model parses the bytes the implementation wrote (compared byte-for-byte after '
         'the 4 auto-generated header lines). Thorough: all column permutations/subsets of <= 4 columns and '
         'all compositions of <= 7 rows. Non-trivial: >= 2 columns with non-monotone usecols, or limits '
-        'with >= 2 pieces, or a multi-line header.')
+        'with >= 2 pieces, or a multi-line header.'
+        " Added classes: labels at the ends of the requested integer type's range, row limit 0.")
 TRUSTED = ['pandas read_csv / numpy savetxt are modelled (Model/TextIO.v), not verified', 'header text restricted to latin-1']
 ASSUMPTIONS = ['integer tables; values within int64']
 BATCH = 100
